@@ -26,10 +26,11 @@ TRUSTED = ["SVD contract", "inv contract (A B = B A = I) for the whitener's stor
 ASSUMPTIONS = ["std > 1.2e-7 branch and clipped branch are both explored as paths"]
 
 
-def h_single(B, cls="EOF", n=4, p=2, flags=None, weights=False, layout="2d", k=None):
+def h_single(B, cls="EOF", n=4, p=2, flags=None, weights=False, layout="2d", k=None, witness=None):
     flags = dict(flags or {})
     cplx = cls == "ComplexEOF"
     X, dim, fdims = M.make_input(B, layout, n, p, cplx, flags)
+    X = M.extreme_witness(X, witness)
     w = M.make_weights(B, X, fdims) if weights else None
     ptot = p if layout not in ("3d", "3d-coslat") else 2 * max(1, p // 2)
     k = k or min(n, ptot)
@@ -128,6 +129,9 @@ def configs(tier):
                     if cls == "ComplexEOF" and tier == "quick" and fl and w:
                         continue
                     add("h_single", f"{cls}|n{n}p{p}|{keyof(fl)}|w{int(w)}", cls=cls, n=n, p=p, flags=fl, weights=w)
+    for wkey, wit in (("scale 1e-8", {"scale": 1e-8}), ("scale 1e8", {"scale": 1e8}), ("offset 1e7", {"offset": 1e7})):
+        c_ = {"key": f"EOF|n4p2|standardize|witness {wkey}", "fn": "h_single", "params": {"cls": "EOF", "n": 4, "p": 2, "flags": {"standardize": True} if "offset" in wit or wit.get("scale") == 1e8 else {}, "witness": wit}, "options": {"float_rtol": 1e-5}}
+        out.append(c_)
     add("h_single", "EOF|layout=2d-internal-names", cls="EOF", n=4, p=2, layout="2d-internal-names")
     for layout in ("3d-coslat", "dataset", "list", "2d-T", "3d-T"):
         fl = {"use_coslat": True} if layout == "3d-coslat" else {}
